@@ -23,7 +23,10 @@
 //	                         mtime mt; the first loader lives on with its cache
 //	N <host>                 mtproto.NewMTProto(Config{AuthKeyFile: path, ServerHost: host}) - no network involved
 //	NS <host> <mt>           the same, then m.SaveSession(); new loader
-//	V <string>               only compares utf8.ValidString with the model's utf8_valid
+//	M                        the caller scribbles over every *session.Session it passed to Store or got from Load so
+//	                         far in this history (all bytes of Key and Hash, Salt, Hostname): aliasing probe
+//	V <string>               only compares utf8.ValidString / what encoding/json makes of the string with the
+//	                         model's utf8_valid / coerce_utf8
 //	E                        end of history
 //
 // salt is 16 hex digits: the uint64 bit pattern, big-endian.
@@ -42,7 +45,7 @@
 //	<id> <opindex> L ok <key> <hash> <salt> <host> | L nf | L err | L panic
 //	<id> <opindex> N ok <0|1> <key> <hash> <salt> <addr> | N err | N panic        (NS: ... | S ...)
 //	<id> <opindex> G ok <file content> | G err | G panic
-//	<id> <opindex> V <0|1>
+//	<id> <opindex> V <0|1> <the string after encoding/json's coercion to valid UTF-8>
 //	<id> <opindex> -
 //
 // Library assumptions of the theorems are validated on every stored session (lines "hyp ..." on stdout).
@@ -147,6 +150,14 @@ func randRune(r *vc.Rng) rune {
 }
 
 func randHost(r *vc.Rng) string {
+	if r.Intn(40) == 0 {
+		// not valid UTF-8: known finding store-load:hostname-invalid-utf8
+		h := invalidUTF8[r.Intn(len(invalidUTF8))]
+		if r.Intn(2) == 0 {
+			h = "t" + h + "me:443"
+		}
+		return h
+	}
 	switch r.Intn(4) {
 	case 0:
 		return hostCorners[r.Intn(len(hostCorners))]
@@ -393,6 +404,47 @@ func gen(tier, out string) {
 		h.ops = [][]string{{"TR", "3", "1"}, {"L"}, opG(fixture, 2), {"L"}, {"TR", "1", "3"}, {"L"}, {"L"}, {"F"}, {"L"}}
 		emit(h)
 	}
+	for k := 0; k < 10; k++ {
+		// modification times that go BACK (restore from a backup, cp -p, os.Chtimes): the code's test is equality
+		h := newH("corpus-foreign-store-older", k)
+		h.ops = [][]string{opS(real1, 5), {"L"}, opG(real2, 3), {"L"}, {"L"}, {"F"}, {"L"}}
+		emit(h)
+		h = newH("corpus-foreign-store-older-not-cached-time", k)
+		h.ops = [][]string{opS(fixture, 5), opS(real1, 6), {"L"}, opG(real2, 5), {"L"}, {"L"}}
+		emit(h)
+		h = newH("corpus-foreign-tear-older", k)
+		h.ops = [][]string{opS(real1, 5), {"L"}, {"TR", "100", "2"}, {"L"}, {"L"}, {"F"}, {"L"}}
+		emit(h)
+		// back to exactly the cached time: the stated limit of a cache keyed on the modification time
+		h = newH("corpus-foreign-back-to-cached-time", k)
+		h.ops = [][]string{opS(real1, 5), {"L"}, opG(fixture, 7), opG(real2, 5), {"L"}, {"L"}, {"F"}, {"L"}}
+		emit(h)
+		h = newH("corpus-foreign-back-and-forth", k)
+		h.ops = [][]string{opS(real1, 5), {"L"}, opG(fixture, 7), {"L"}, opG(real2, 5), {"L"}, {"TR", "9", "7"}, {"L"}, opG(real1, 6), {"L"}}
+		emit(h)
+		// aliasing: the caller scribbles over what it passed to Store / got from Load
+		h = newH("corpus-alias-load", k)
+		h.ops = [][]string{opS(real1, 5), {"L"}, {"M"}, {"L"}, {"L"}, {"F"}, {"L"}, {"M"}, {"L"}}
+		emit(h)
+		h = newH("corpus-alias-store", k)
+		h.ops = [][]string{opS(real1, 5), {"M"}, {"L"}, {"F"}, {"L"}}
+		emit(h)
+		h = newH("corpus-alias-store-same-tick", k)
+		h.ops = [][]string{opS(real1, 5), {"L"}, opS(real2, 5), {"M"}, {"L"}, {"L"}, {"F"}, {"L"}}
+		emit(h)
+		h = newH("corpus-alias-foreign", k)
+		h.ops = [][]string{opS(fixture, 5), {"L"}, opG(real2, 6), {"M"}, {"L"}, {"M"}, {"L"}, {"N", vc.HexS("cfg")}}
+		emit(h)
+	}
+	for i, bad := range invalidUTF8 {
+		// host names that are not valid UTF-8: known finding store-load:hostname-invalid-utf8
+		for _, hs := range []string{bad, "t" + bad + "me:443"} {
+			h := newH("corpus-invalid-utf8-host", goodShape(r))
+			s := sess{key: randBytes(r, 16+i), hash: randBytes(r, 8), salt: randSalt(r), host: hs}
+			h.ops = [][]string{opS(s, 1), {"L"}, {"F"}, {"L"}, {"N", vc.HexS("cfg")}, {"TR", "5", "2"}, {"L"}, opG(s, 3), {"L"}}
+			emit(h)
+		}
+	}
 	{
 		h := newH("corpus-utf8", 0)
 		for _, s := range hostCorners {
@@ -456,7 +508,9 @@ func gen(tier, out string) {
 			// the same cut made by ANOTHER writer while the loader lives on; repeated loads
 			ks := strconv.Itoa(k)
 			h = newH(fmt.Sprintf("sweeptear%d", i), (i+k+3)%10)
-			switch k % 4 {
+			switch k % 5 {
+			case 4:
+				h.ops = [][]string{opS(s, 7), {"L"}, {"TR", ks, "3"}, {"L"}, {"L"}, {"M"}, {"L"}, {"F"}, {"L"}}
 			case 0:
 				h.ops = [][]string{opS(s, 7), {"L"}, {"TR", ks, "8"}, {"L"}, {"L"}, {"L"}, {"F"}, {"L"}}
 			case 1:
@@ -471,7 +525,7 @@ func gen(tier, out string) {
 	}
 
 	// ---- random histories ----
-	nrand := 2000
+	nrand := 1500
 	if tier == "thorough" {
 		nrand = 25000
 	}
@@ -499,6 +553,21 @@ func gen(tier, out string) {
 			}
 			return strconv.Itoa(mt)
 		}
+		// another writer's time: strictly later (half), same tick or later (quarter), EARLIER (quarter)
+		foreignTime := func() string {
+			switch r.Intn(4) {
+			case 0:
+				return tick()
+			case 1:
+				back := mt - 1 - r.Intn(3)
+				if back < 0 {
+					back = 0
+				}
+				return strconv.Itoa(back)
+			}
+			mt++
+			return strconv.Itoa(mt)
+		}
 		curLen := 0
 		nops := 2 + r.Intn(13)
 		for j := 0; j < nops; j++ {
@@ -513,12 +582,7 @@ func gen(tier, out string) {
 				s := pool[r.Intn(len(pool))]
 				curLen = len(s.render())
 				h.ops = append(h.ops, opG(s, 0))
-				if r.Intn(3) != 0 {
-					mt++
-					h.ops[len(h.ops)-1][5] = strconv.Itoa(mt)
-				} else {
-					h.ops[len(h.ops)-1][5] = tick()
-				}
+				h.ops[len(h.ops)-1][5] = foreignTime()
 			case x < 38:
 				// another writer leaves a cut file; the loader lives on
 				kk := 0
@@ -526,16 +590,11 @@ func gen(tier, out string) {
 					kk = r.Intn(curLen)
 				}
 				curLen = kk
-				ts := ""
-				if r.Intn(3) != 0 {
-					mt++
-					ts = strconv.Itoa(mt)
-				} else {
-					ts = tick()
-				}
-				h.ops = append(h.ops, []string{"TR", strconv.Itoa(kk), ts})
-			case x < 67:
+				h.ops = append(h.ops, []string{"TR", strconv.Itoa(kk), foreignTime()})
+			case x < 64:
 				h.ops = append(h.ops, []string{"L"})
+			case x < 68:
+				h.ops = append(h.ops, []string{"M"})
 			case x < 74:
 				h.ops = append(h.ops, []string{"F"})
 			case x < 81:
@@ -637,29 +696,55 @@ func (rn *runner) validate(s sess) {
 			rn.hyp["FAIL:base64_utf8:"+name]++
 		}
 	}
-	if utf8.ValidString(s.host) {
-		var back mirror
-		if err := json.Unmarshal(d, &back); err != nil || back != m {
-			rn.hyp["FAIL:json_rt"]++
-			fmt.Printf("hypfail\tjson_rt\t%s\n", vc.Hex(d))
+	// json_go_ok: what comes back is the mirror with its strings coerced (identity on valid UTF-8: json_ok)
+	want := m
+	want.Hostname = coerceGo(m.Hostname)
+	var back mirror
+	if err := json.Unmarshal(d, &back); err != nil || back != want {
+		rn.hyp["FAIL:json_rt"]++
+		fmt.Printf("hypfail\tjson_rt\t%s\n", vc.Hex(d))
+	}
+	for k := 0; k < len(d); k++ {
+		var t mirror
+		rn.hyp["prefixes"]++
+		if err := json.Unmarshal(d[:k], &t); err == nil {
+			rn.hyp["FAIL:json_prefix"]++
+			fmt.Printf("hypfail\tjson_prefix\t%s\t%d\n", vc.Hex(d), k)
 		}
-		for k := 0; k < len(d); k++ {
-			var t mirror
-			rn.hyp["prefixes"]++
-			if err := json.Unmarshal(d[:k], &t); err == nil {
-				rn.hyp["FAIL:json_prefix"]++
-				fmt.Printf("hypfail\tjson_prefix\t%s\t%d\n", vc.Hex(d), k)
-			}
-		}
-	} else {
-		rn.hyp["sessions-with-invalid-utf8-host(outside the theorems)"]++
+	}
+	if !utf8.ValidString(s.host) {
+		rn.hyp["sessions-with-invalid-utf8-host(known finding store-load:hostname-invalid-utf8)"]++
 	}
 }
 
-func loadObs(l session.SessionLoader) string {
+// coerceGo: what encoding/json does to a string when it marshals it (encodeState.string): every byte at
+// which utf8.DecodeRuneInString reports (RuneError, 1) becomes U+FFFD. Written out here independently;
+// validate() checks that json.Marshal + json.Unmarshal of the mirror struct gives exactly this.
+func coerceGo(s string) string {
+	var b strings.Builder
+	for i := 0; i < len(s); {
+		c, size := utf8.DecodeRuneInString(s[i:])
+		if c == utf8.RuneError && size == 1 {
+			b.WriteString("\ufffd")
+			i++
+			continue
+		}
+		b.WriteString(s[i : i+size])
+		i += size
+	}
+	return b.String()
+}
+
+func vLine(s string) []string {
+	return []string{"V", b2s(utf8.ValidString(s)), vc.HexS(coerceGo(s))}
+}
+
+func loadObs(l session.SessionLoader) (string, *session.Session) {
 	var res string
+	var got *session.Session
 	p, _ := vc.Catch(func() {
 		s, err := l.Load()
+		got = s
 		switch {
 		case err == nil && s != nil:
 			res = strings.Join([]string{"L", "ok", vc.Hex(s.Key), vc.Hex(s.Hash), saltHex(uint64(s.Salt)), vc.HexS(s.Hostname)}, "\t")
@@ -672,9 +757,9 @@ func loadObs(l session.SessionLoader) string {
 		}
 	})
 	if p {
-		return "L\tpanic"
+		return "L\tpanic", nil
 	}
-	return res
+	return res, got
 }
 
 func readFileHex(path string) string {
@@ -760,6 +845,13 @@ func (rn *runner) runHistory(hd []string, setup [][]string, ops [][]string) {
 		}
 	}
 	l := session.NewFromFile(path)
+	// every *session.Session that crossed the API in this history (passed to Store, returned by Load)
+	var handed []*session.Session
+	mkSession := func(s sess) *session.Session {
+		v := &session.Session{Key: append([]byte{}, s.key...), Hash: append([]byte{}, s.hash...), Salt: int64(s.salt), Hostname: s.host}
+		handed = append(handed, v)
+		return v
+	}
 	for i, op := range ops {
 		idx := strconv.Itoa(i)
 		switch op[0] {
@@ -769,7 +861,7 @@ func (rn *runner) runHistory(hd []string, setup [][]string, ops [][]string) {
 			addJ(s)
 			var err error
 			p, _ := vc.Catch(func() {
-				err = l.Store(&session.Session{Key: s.key, Hash: s.hash, Salt: int64(s.salt), Hostname: s.host})
+				err = l.Store(mkSession(s))
 			})
 			switch {
 			case p:
@@ -780,10 +872,40 @@ func (rn *runner) runHistory(hd []string, setup [][]string, ops [][]string) {
 				rn.impl.Line(id, idx, "S", "ok", readFileHex(path))
 				rn.setMtime(path, atoi(op[5]))
 			}
-			rn.impl.Line(id, idx+".v", "V", b2s(utf8.ValidString(s.host)))
+			rn.impl.Line(append([]string{id, idx + ".v"}, vLine(s.host)...)...)
 		case "L":
 			rn.uOracle(seenU, &oracle, path)
-			rn.impl.Line(id, idx, loadObs(l))
+			o, got := loadObs(l)
+			if got != nil {
+				handed = append(handed, got)
+			}
+			rn.impl.Line(id, idx, o)
+		case "M":
+			// each struct and each backing array once (values may share memory: that is what is probed)
+			seenS := map[*session.Session]bool{}
+			seenB := map[*byte]bool{}
+			flip := func(b []byte) {
+				if len(b) == 0 || seenB[&b[0]] {
+					return
+				}
+				seenB[&b[0]] = true
+				for j := range b {
+					b[j] ^= 0xff
+				}
+			}
+			for _, v := range handed {
+				if seenS[v] {
+					continue
+				}
+				seenS[v] = true
+				flip(v.Key)
+				flip(v.Hash)
+				v.Salt = ^v.Salt
+				v.Hostname = "scribbled.by.the.caller"
+			}
+			// what was scribbled on now belongs to the past: later values are new ones
+			handed = nil
+			rn.impl.Line(id, idx, "-")
 		case "F":
 			l = session.NewFromFile(path)
 			rn.impl.Line(id, idx, "-")
@@ -819,7 +941,7 @@ func (rn *runner) runHistory(hd []string, setup [][]string, ops [][]string) {
 			other := session.NewFromFile(path)
 			var err error
 			p, _ := vc.Catch(func() {
-				err = other.Store(&session.Session{Key: s.key, Hash: s.hash, Salt: int64(s.salt), Hostname: s.host})
+				err = other.Store(mkSession(s))
 			})
 			switch {
 			case p:
@@ -830,6 +952,7 @@ func (rn *runner) runHistory(hd []string, setup [][]string, ops [][]string) {
 				rn.impl.Line(id, idx, "G", "ok", readFileHex(path))
 				rn.setMtime(path, atoi(op[5]))
 			}
+			rn.impl.Line(append([]string{id, idx + ".v"}, vLine(s.host)...)...)
 		case "X":
 			if kind == "D" {
 				if err := os.WriteFile(path, vc.UnHex(op[1]), 0o600); err != nil {
@@ -885,7 +1008,7 @@ func (rn *runner) runHistory(hd []string, setup [][]string, ops [][]string) {
 			l = session.NewFromFile(path)
 			rn.impl.Line(append(append([]string{id, idx}, nobs...), append([]string{"|"}, sobs...)...)...)
 		case "V":
-			rn.impl.Line(id, idx, "V", b2s(utf8.ValidString(string(vc.UnHex(op[1])))))
+			rn.impl.Line(append([]string{id, idx}, vLine(string(vc.UnHex(op[1])))...)...)
 		default:
 			fatal("unknown op %q", op[0])
 		}
